@@ -1,9 +1,9 @@
 #!/bin/bash
-# confirm_mutant.sh <worktree> <demo cargo-test args...>
+# confirm_mutant.sh <worktree> <demo cargo-test args...>   (CARGO_TARGET_DIR taken from $WT_TARGET, default /tmp/wt/target)
 # 1. patch applied: whole existing suite must pass;  2. patch + demo: demo must FAIL;  3. demo only: demo must PASS.
 set -u
 WT=$1; shift
-export CARGO_TARGET_DIR=/tmp/wt/target CARGO_NET_OFFLINE=true
+export CARGO_TARGET_DIR=${WT_TARGET:-/tmp/wt/target} CARGO_NET_OFFLINE=true
 unset RUSTFLAGS
 cd "$WT" || exit 2
 git checkout -q -- . ; git clean -fdq -e _out
